@@ -653,6 +653,7 @@ func propC07(w *World, r *Report) {
 	}
 	r.Check(strings.Contains(sz, "NewFrameLoop((config.ThermalMotion.FrameCompareGap"+cfgMotion+" + 1),"), "K5", "comparison ring holds FrameCompareGap+1 frames", w.Pos(d.Ctor.Pos()), sz)
 	checkRingResetAndOldest(w, r, "K5")
+	checkRingMove(w, r, "K5")
 }
 
 func (c *ssaConstHelper) unused() {}
